@@ -17,7 +17,8 @@ RULE = ("Row-stochastic float64 transition tensors (2-5 states quick / 6 thoroug
         "state-dependent action sets. Oracle: the soft Bellman relations recomputed in float64 numpy, and Q* by "
         "deterministic-policy enumeration for the small-weight bracket. Only converged runs are asserted. "
         "Non-trivial: >=2 actions whose action values differ and a policy that is neither near-uniform nor one-hot "
-        "at some state; distinct by spec hash.")
+        "at some state; distinct by spec hash."
+        ' Also: iteration budgets of 1-5, 26-45 states x 4-5 actions at entropy weights down to 0.001, caller-supplied starting policies with exact zeros, planner weights 0.01 / 0.001.')
 ASSUMPTIONS = ["policy fixed-point tolerance follows the algorithm's own stop rule (isclose rtol 1e-5) plus the float32 "
                "rounding of a scalar entropy weight", "non-converged runs are counted, not asserted"]
 
